@@ -210,6 +210,46 @@ def run(ctx):
                     violations.append(Violation(bad, dict(kind="time_track", n=n, offset=off, increment=inc, start=[ssec, sfr], raw_timestamps=raw, file=data.hex())))
             if len(violations) > 4:
                 break
+    # ---- raw timestamps (seconds, 2^-64 fractions) survive read, write and defragment bit-exactly, in both byte orders
+    if model is not None:
+        import gen_files
+        import canon
+        counts["raw_files"] = 0
+        for _ in range(ctx.n(120, 3000)):
+            segs = gen_files.FileGen(rnd, types=[0x44], max_segs=3, max_paths=2).draw()
+            e = model.ask(gen_files.to_line(segs))
+            if not e.get("ok") or not e.get("wf"):
+                continue
+            data = bytes.fromhex(e["file"])
+            counts["raw_files"] += 1
+            exp = {o["path"]: o["values"] for o in e["content"] if o["ty"] == 0x44}
+            exp_props = {(o["path"], pr[0]): pr[2] for o in e["content"] for pr in o["props"] if pr[1] == 0x44}
+            try:
+                fe = nptdms.TdmsFile.read(io.BytesIO(data), raw_timestamps=True)
+                fl = nptdms.TdmsFile.open(io.BytesIO(data), raw_timestamps=True)
+                d = io.BytesIO()
+                nptdms.TdmsWriter.defragment(io.BytesIO(data), d)
+                fd = nptdms.TdmsFile.read(io.BytesIO(d.getvalue()), raw_timestamps=True)
+            except Exception as ex:  # noqa
+                violations.append(Violation("reading / defragmenting a timestamp file raised %r" % ex, dict(kind="raw-file", file=data.hex())))
+                continue
+            for label, f in (("eager read", fe), ("lazy read", fl), ("defragmented copy", fd)):
+                for g in f.groups():
+                    for c in g.channels():
+                        p = c.path.encode("utf-8").hex()
+                        if p not in exp:
+                            continue
+                        got = canon.value_bytes(c[:]) if label != "lazy read" else canon.value_bytes(c.read_data())
+                        distinct.add(("rawfile", data[:40], p, label))
+                        if got != exp[p]:
+                            violations.append(Violation("raw timestamps of %r differ from the encoded (seconds, fractions) in the %s: %s vs %s" % (
+                                c.path, label, got[:3], exp[p][:3]), dict(kind="raw-file", file=data.hex(), path=p, how=label)))
+                        for k, v in c.properties.items():
+                            want = exp_props.get((p, k.encode("utf-8").hex()))
+                            if want is not None and hasattr(v, "second_fractions") and struct.pack("<Qq", int(v.second_fractions), int(v.seconds)).hex() != want:
+                                violations.append(Violation("raw timestamp property %r of %r differs in the %s" % (k, c.path, label), dict(kind="raw-file", file=data.hex(), path=p)))
+            if len(violations) > 4:
+                break
     ev = sum(counts.values())
     return dict(violations=violations[:5], disagreements=disagreements[:20],
                 coverage=dict(evaluations=ev, distinct_nontrivial=len(distinct),
